@@ -622,10 +622,32 @@ func ruleWaitKeepsTimer(c *Ctx, r *Report) {
 				continue
 			}
 			if call, _ := callOfResult(v); call != nil {
-				// a state decided by a helper (timeout / cancellation handling): its constants
-				for _, k := range c.handlerStates(fn, 0) {
-					_ = k
+				// a state decided by a helper: first by exploration with the helper followed (the
+				// caller may test a second result of the helper before returning its state) ...
+				wf := &Walk{Fn: fn, Follow: followSamePkg(fn), Assume: wr.Assume}
+				wf.After(sel)
+				decided, sawWaiting := true, false
+				seenRet := false
+				for _, ro := range wf.Returns {
+					if ro.Ret != ret {
+						continue
+					}
+					seenRet = true
+					if len(ro.Vals) > 0 && ro.Vals[0].Kind == 3 {
+						if ro.Vals[0].I == waiting {
+							sawWaiting = true
+						}
+					} else {
+						decided = false
+					}
 				}
+				if seenRet && decided && !wf.overflow {
+					if sawWaiting {
+						bad = "returns StateWaiting (computed by " + calleeName(&call.Call) + ") at " + c.ipos(ret)
+					}
+					continue
+				}
+				// ... otherwise by the constants the helper can return
 				if callee := call.Call.StaticCallee(); callee != nil {
 					for _, k := range c.handlerStates(callee, 1) {
 						if k == waiting {
